@@ -385,11 +385,19 @@ class C09(PropBase):
         key = core.jdump(step["t"]) + "@" + step["mod"]
         mine = render(nodes, drop_last_label=True)
         base = sess.base_render.get(key)
+        alias_now = _union_spelling_alias_at_work(nodes)
+        flags = sess.__dict__.setdefault("base_alias", {})
         if base is None:
             sess.base_render[key] = mine
+            flags[key] = alias_now
         elif base != mine:
-            sess.violation("graph-differs", i, {"t": tsrc, "spelling": sp, "first": _s(base), "now": _s(mine)},
-                           sig=f"graph-differs:{sp}:{'after-mutation' if sess.faults['mutate_returned'] else 'plain'}")
+            sig = f"graph-differs:{sp}:{'after-mutation' if sess.faults['mutate_returned'] else 'plain'}"
+            if (alias_now or flags.get(key)) and _differ_in_union_rows_only(base, mine):
+                # the recorded spelling alias of the predicate memos (C17 history:union-spelling-alias), seen from the graph:
+                # whether a union met again gets a flagged node follows issubscriptedgeneric(), which is answering for this
+                # union object with the answer of an equal union of the other spelling (shown on the spot, below)
+                sig = "graph-differs:union-spelling-alias"
+            sess.violation("graph-differs", i, {"t": tsrc, "spelling": sp, "first": _s(base), "now": _s(mine)}, sig=sig)
 
 
 def _home(t, mods, rng):
@@ -432,6 +440,46 @@ def _signature_only_owner(n, nodes) -> bool:
         if p is not None and p.annotation == n.type.__forward_arg__:
             return True
     return False
+
+
+def _is_union(t) -> bool:
+    import types
+
+    return isinstance(t, types.UnionType) or typing.get_origin(t) is typing.Union
+
+
+def _union_spelling_alias_at_work(nodes) -> bool:
+    """Is the memoised issubscriptedgeneric() answering, for a union in this graph, differently from what the
+    function itself computes for that very object (i.e. with the answer memoised for an equal union written in the
+    other spelling)?  A direct observation of the cause, not an inference from the history."""
+    from typelib.py import inspection
+
+    fn = inspection.issubscriptedgeneric
+    raw = getattr(fn, "__wrapped__", None)
+    if raw is None:
+        return False
+    for n in nodes:
+        for t in (getattr(n, "unwrapped", None), getattr(n, "type", None)):
+            if _is_union(t):
+                try:
+                    if bool(fn(t)) != bool(raw(t)):
+                        return True
+                except Exception:  # noqa: BLE001
+                    pass
+    return False
+
+
+def _differ_in_union_rows_only(a, b) -> bool:
+    """The two renderings differ by rows about unions only (a union met again: flagged node or none)."""
+    ka = [core.jdump(r) for r in a]
+    kb = [core.jdump(r) for r in b]
+    rest_a, rest_b = list(ka), list(kb)
+    for k in ka:
+        if k in rest_b:
+            rest_b.remove(k)
+            rest_a.remove(k)
+    extra = [core.jload(k) if hasattr(core, "jload") else __import__("json").loads(k) for k in rest_a + rest_b]
+    return bool(extra) and all(isinstance(r, list) and isinstance(r[0], str) and r[0].startswith("Union[") for r in extra)
 
 
 PROP = C09()
